@@ -24,7 +24,7 @@ macro "asm_exec" "[" ts:Lean.Parser.Tactic.simpLemma,* "]" : tactic =>
 /-- a concrete run of the interpreter (end-of-page path, match in lane 5) -/
 example : (run Gen.Asm.body_indexbytebody 40 (block Gen.Asm.body_indexbytebody "small")
     { r := fun q => match q with | .BX => 9 | .SI => 4085 | _ => 0, x := fun q _ => match q with | .X0 => 0x41 | _ => 0, y := fun _ _ => 0,
-      zf := false, cf := false, lt := false, avx2 := false, mem := fun i => if i = 4090 then 0x41 else 0, loads := [], out := none }).out
+      zf := false, cf := false, lt := false, avx2 := false, popcnt := true, args := fun _ => 0, tail := none, mem := fun i => if i = 4090 then 0x41 else 0, loads := [], out := none }).out
     = some 5 := by decide +kernel
 
 set_option maxRecDepth 8000 in
